@@ -53,8 +53,8 @@ PROPS = {
         "level_note": "Trusted: model totality stands for termination only of the modelled loops; everything else is the oracle's search.",
     },
     "C07": {
-        "streams": [],
-        "level_text": "Proof (schema level): encoding/json's field rules restated; for every schema and every struct value satisfying fieldOK, decode(encode v) = v. Facts regenerated from the struct tags and layouts: every field that String()/Parse touch is exported (exceptions pinned: FileHeader's four constants; Addenda98.iatCorrectedData = known finding), every omitempty field has a zero constructor default (exceptions pinned) - the obligation that failed for D7 before its fix. Decode-path functions pinned by hash. Re-tabulation on decode = C05; text equality end to end: oracle.",
+        "streams": [("json", 2600, 26000)],
+        "level_text": "Proof (schema level): encoding/json's field rules restated; for every schema and every struct value satisfying fieldOK, decode(encode v) = v. Facts regenerated from the struct tags and layouts: every field that String()/Parse touch is exported (exceptions pinned: FileHeader's four constants; Addenda98.iatCorrectedData = known finding), every omitempty field has a zero constructor default (exceptions pinned) - the obligation that failed for D7 before its fix. Decode-path functions pinned by hash; the json stream runs encoding/json on the 26 real record structs (constructor value, exported string/int/bool fields set to zero / non-zero / left as constructed; Marshal, Unmarshal into a fresh constructor value) and compares, field by field, whether the value came back with the model's fieldOK over the regenerated struct tags and constructor defaults. Re-tabulation on decode = C05; text equality end to end: oracle.",
         "level_note": "Trusted: encoding/json rules as restated; setBatchesFromJSON's CTX/ATX re-inference is not modelled (oracle found a defect there, known finding).",
     },
     "C08": {
